@@ -122,6 +122,12 @@ static void build(Scenario & s, const std::string & dir, bool writeFile) {
             m.general.data.assign((size_t) it.b, 0x33);
             m.general.timeStamps.assign(2, 0x0102030405060708ll);
             b = kit::encode(m);
+        } else if (it.kind == "serialsb") {      // single-byte variant: one byte + 15 unused union bytes
+            SerialEvent m;
+            set_id(&m, it.a);
+            m.flags = SerialEvent::Flags::SingleByte;
+            m.singleByte.byte = 0x42;
+            b = kit::encode(m);
         } else if (it.kind == "marker") {
             GlobalMarker m;
             set_id(&m, it.a);
